@@ -513,6 +513,29 @@ def _pair_moves(Aspec, bspec):
     return out
 
 
+def evidence_extra(jobs, results):
+    sweeps = {}
+    for r in results:
+        t = r["job"]["trace"]
+        if t.get("mode") != "sweep":
+            continue
+        st = r["steps"][0]
+        e = sweeps.setdefault(t["seed"], {"system": t["steps"][0]["call"]["tags"], "world": t["world"],
+                                          "executed_lines_K": st.get("K"), "crash_points_run": 0,
+                                          "raised": 0, "returned": 0, "chunks": 0})
+        e["crash_points_run"] += st.get("n_sub") or 0
+        e["raised"] += st.get("n_raised") or 0
+        e["returned"] += st.get("n_returned") or 0
+        e["chunks"] += 1
+    full = [e for e in sweeps.values() if e["chunks"] == SWEEP_CHUNKS and e["crash_points_run"] == e["executed_lines_K"]]
+    return {"crash_point_sweeps": {"systems_swept": len(sweeps), "complete": len(full),
+                                   "exhaustive_per_swept_solve": len(full) == len(sweeps) and bool(sweeps),
+                                   "total_crash_points": sum(e["crash_points_run"] for e in sweeps.values()),
+                                   "detail": list(sweeps.values())[:8]},
+            "unreachable_in_domain": ["zero diagonal in UtriangleQsparse (reached only through the forced "
+                                      "utri_zero fault, DESIGN 6.4)"]}
+
+
 def simplify(trace):
     """Property-specific shrink moves (after generic step dropping)."""
     out = []
